@@ -27,6 +27,10 @@ func checkC11(c *Ctx) {
 	// the file a restart reads must reflect every completed command (shared with C12)
 	r122(c, "R11.5 state-file-carries-latest-listing")
 	r123(c, "R11.6 every-mutating-command-snapshots-after")
+	// what the running proxy derives from the services (bindings, inherited TLS flags) is what a restart derives: every
+	// change of the table rebuilds the derived state (shared with C04/C05)
+	c.floor("R11.8 derived-table-rebuilt-on-every-change", 1)
+	c.servicesWriteRebuilds("R11.8 derived-table-rebuilt-on-every-change")
 }
 
 var serviceFieldClass = map[string]string{
